@@ -85,7 +85,7 @@ def _gen_opts(r: Rng, ds: dsdlgen.DsdlSet, lang: typing.Optional[str], fixed: ty
     o = {"lang": lang, "root": root, "lookups": ds.root_deps(root)}  # type: typing.Dict[str, typing.Any]
     if r.chance(1, 4):
         o["lookups"] = [x for x in roots if x != root]
-    o["outdir_spelling"] = r.choice(["abs", "rel", "rel_dot", "abs_slash", "rel_slash"])
+    o["outdir_spelling"] = r.choice(["abs", "rel", "rel_dot", "abs_slash", "rel_slash", "symlink_dotdot", "symlink_dotdot_rel"])
     o["in_spelling"] = r.choice(["abs", "abs", "rel"])
     if o["lookups"] and r.chance(1, 4):
         o["lookups_via_env"] = True  # DSDL_INCLUDE_PATH instead of -I
@@ -145,7 +145,8 @@ def dsdl_closure(root_dir: str, lookup_dirs: typing.List[str]) -> typing.Tuple[t
 
 def _parse_listing(stdout: str, cwd: str) -> typing.List[str]:
     items = [x for x in stdout.split(";") if x.strip() != ""]
-    return [os.path.normpath(os.path.join(cwd, x)) for x in items]
+    # the file the kernel would reach through the printed spelling (symbolic links resolved before "..")
+    return [os.path.realpath(os.path.join(cwd, x)) for x in items]
 
 
 def _mutations(res: dict) -> typing.List[list]:
@@ -162,7 +163,7 @@ def _mutations(res: dict) -> typing.List[list]:
 def run_case(case: dict, ctx: dict) -> dict:
     sandbox = os.path.join(ctx["scratch"], "disk")
     os.makedirs(sandbox)
-    world = nnvg.World(sandbox)
+    world = nnvg.World(sandbox, out_rel=(case.get("opts") or {}).get("out_rel") or ("build/gen/out" if Rng(PROP, "outrel", str(case.get("ops_seed", case.get("label")))).chance(1, 2) else "out"))
     stats = {}  # type: typing.Dict[str, typing.Any]
     counters = {"ops": {}, "faults_fired": {}, "probes": {}, "status": {}}  # type: typing.Dict[str, typing.Dict[str, int]]
 
@@ -244,6 +245,8 @@ def run_case(case: dict, ctx: dict) -> dict:
     def flags_of(o: dict) -> str:
         return ",".join("%s=%s" % (k, o[k]) for k in ("gen_support", "omit_ser") if o.get(k))
 
+    opts["out_rel"] = os.path.relpath(world.out_dir, world.sandbox)
+    O["out_rel"] = opts["out_rel"]
     # ---- 1. the real run in a pristine directory
     ref = nnvg.reference_run(world, without_env_lookups(O), ref_cache, enum_seed=enum_seed, **env_plan(O))
     evaluations += 1
@@ -260,8 +263,8 @@ def run_case(case: dict, ctx: dict) -> dict:
         bump("ops", "skipped-real-run-fails:" + ref["res"]["status"])
         return {"violations": [], "evaluations": evaluations, "skipped": 1, "executed": exec_case, "counters": counters, "states": [], "nontrivial_keys": []}
     out_abs = world.out_dir
-    created = {os.path.normpath(os.path.join(out_abs, p)) for p in ref["files"]}
-    created_ev = {world.sandbox + e[2][1:] for e in ref["res"]["events"] if e[1] == "open-w" and str(e[2]).startswith("@")}
+    created = {os.path.realpath(os.path.join(out_abs, p)) for p in ref["files"]}
+    created_ev = {os.path.realpath(world.sandbox) + e[2][1:] for e in ref["res"]["events"] if e[1] == "open-w" and str(e[2]).startswith("@")}
     read_templates = set()
     for e in ref["res"]["events"]:
         if e[1] == "open-r" and str(e[2]).endswith(".j2"):
@@ -382,7 +385,7 @@ def run_case(case: dict, ctx: dict) -> dict:
         res = proc.run_invocation(world.invocation(without_env_lookups(O), enum_seed=enum_seed + 7, **env_plan(O)))
         evaluations += 1
         if nnvg.succeeded(res):
-            written = {world.sandbox + e[2][1:] for e in res["events"] if e[1] == "open-w" and str(e[2]).startswith("@")}
+            written = {os.path.realpath(world.sandbox) + e[2][1:] for e in res["events"] if e[1] == "open-w" and str(e[2]).startswith("@")}
             if written != created:
                 x = sorted(written ^ created)
                 violation("real-run-set-differs-on-dirty-directory:%s" % nnvg.sig_kind(os.path.relpath(x[0], out_abs)), {"diff": x[:6]})
